@@ -645,7 +645,8 @@ def check_c14(tier, seed):
             _write_files(ws.root, files)
             # unrelated packages without wire files, sorting before and after the wire package: named next to it on the
             # command line they must not change the output
-            _write_files(ws.root, {"a%dx/a.go" % k: "package a%dx\n\nfunc F() int { return %d }\n" % (k, k),
+            # (the first one imports wire without holding any wire pattern: a set built at run time)
+            _write_files(ws.root, {"a%dx/a.go" % k: "package a%dx\n\nimport \"github.com/google/wire\"\n\ntype Thing struct{}\n\nfunc NewThing() *Thing { return &Thing{} }\n\nfunc F() wire.ProviderSet { return wire.NewSet(NewThing) }\n" % k,
                                    "z%dx/z.go" % k: "package c%d\n\ntype Other struct{ N int }\n" % k})
             cases.append(dict(k=k, case=case, meta=meta, files=files, desc=W14.describe(case)))
         def run_migrate(c, out_rel, extra_env=None, patterns=None):
